@@ -3,21 +3,22 @@
    bookkeeping of the code: current_use_ is raised when an edge is queued, released in EdgeFinished
    only `if (directly_wanted)`, delayed_ re-examined on every finish).  Quantification as in
    Properties_C04.v; in addition ALL priority orders for Pool::RetrieveReadyEdges at every step.
+   Dyndep loads during the build are part of the model (Plan::DyndepsLoaded and friends; see PlanDefs.v).
    The jobserver is the exclusive token pool of the harness (implicit slot + n tokens); real FIFOs,
    load limits, and the error paths of StartEdge/FinishCommand are not in this model. *)
 From NinjaV Require Import Base.Bytes Engine.PlanDefs Engine.PlanProofs.
 
 (* pool_inv is part of the plan invariant: per pool of depth d > 0,
      current_use = |ready in pool| + |running in pool| <= d,   delayed <> {} -> current_use = d. *)
-Theorem C06_pool_inv : forall g cfg rank, wf_graph g rank -> 0 < c_k cfg -> 0 < c_j cfg ->
-  forall s, reachable g cfg s -> s_phase s = PhBuild -> plan_inv g cfg s.
+Theorem C06_pool_inv : forall g cfg loads rank, wf_graph g rank -> 0 < c_k cfg -> 0 < c_j cfg ->
+  forall s, reachable g cfg loads s -> s_phase s = PhBuild -> plan_inv g cfg s.
 Proof. exact plan_inv_reachable. Qed.
 Print Assumptions C06_pool_inv.
 
 (* In EVERY reachable state (any phase): at most -j commands run, at most depth(pool) per pool
    (console = depth 1), at most 1 + n with a jobserver of n tokens. *)
-Theorem C06_limits : forall g cfg rank, wf_graph g rank -> 0 < c_k cfg -> 0 < c_j cfg ->
-  forall s, reachable g cfg s ->
+Theorem C06_limits : forall g cfg loads rank, wf_graph g rank -> 0 < c_k cfg -> 0 < c_j cfg ->
+  forall s, reachable g cfg loads s ->
   length (s_running s) <= c_j cfg /\
   (forall q, 0 < depth g q -> cnt g q (s_running s) <= depth g q) /\
   (forall n, c_jobserver cfg = Some n -> length (s_running s) <= S n).
@@ -25,45 +26,45 @@ Proof. exact limits. Qed.
 Print Assumptions C06_limits.
 
 (* The slots held are exactly the running commands; all are back on every return of Build(). *)
-Theorem C06_tokens_held : forall g cfg rank, wf_graph g rank -> 0 < c_k cfg -> 0 < c_j cfg ->
-  forall s, reachable g cfg s -> s_phase s = PhBuild ->
+Theorem C06_tokens_held : forall g cfg loads rank, wf_graph g rank -> 0 < c_k cfg -> 0 < c_j cfg ->
+  forall s, reachable g cfg loads s -> s_phase s = PhBuild ->
   p_tokens (s_plan s) = match c_jobserver cfg with None => 0 | Some _ => length (s_running s) end.
 Proof. exact tokens_held. Qed.
 Print Assumptions C06_tokens_held.
 
-Theorem C06_tokens_returned : forall g cfg rank, wf_graph g rank -> 0 < c_k cfg -> 0 < c_j cfg ->
-  forall s code m s', reachable g cfg s -> step g cfg s (EvExit code m) = Some s' ->
+Theorem C06_tokens_returned : forall g cfg loads rank, wf_graph g rank -> 0 < c_k cfg -> 0 < c_j cfg ->
+  forall s code m s', reachable g cfg loads s -> step g cfg loads s (EvExit code m) = Some s' ->
   m <> MInterrupted -> p_tokens (s_plan s') = 0.
 Proof. exact tokens_at_exit. Qed.
 Print Assumptions C06_tokens_returned.
 
 (* (interrupt path: Cleanup -> the runner's abort returns the slots of the killed commands -- the real
    runner's ClearJobTokens, which the model takes as given) *)
-Theorem C06_tokens_returned_interrupt : forall g cfg rank, wf_graph g rank -> 0 < c_k cfg -> 0 < c_j cfg ->
-  forall s s', reachable g cfg s -> step g cfg s EvInterrupt = Some s' ->
+Theorem C06_tokens_returned_interrupt : forall g cfg loads rank, wf_graph g rank -> 0 < c_k cfg -> 0 < c_j cfg ->
+  forall s s', reachable g cfg loads s -> step g cfg loads s EvInterrupt = Some s' ->
   p_tokens (s_plan s') = 0 /\ s_running s' = [].
 Proof. exact tokens_after_interrupt. Qed.
 Print Assumptions C06_tokens_returned_interrupt.
 
 (* No edge is started twice in an accepted trace. *)
-Theorem C06_once : forall g cfg rank, wf_graph g rank -> 0 < c_k cfg -> 0 < c_j cfg ->
+Theorem C06_once : forall g cfg loads rank, wf_graph g rank -> 0 < c_k cfg -> 0 < c_j cfg ->
   forall prio sn evs1 e pr evs2 s, wf_snap g sn ->
-  run g cfg prio sn (evs1 ++ EvStart e pr :: evs2) = Some s ->
+  run g cfg loads prio sn (evs1 ++ EvStart e pr :: evs2) = Some s ->
   forall pr', ~ In (EvStart e pr') evs2.
 Proof. exact started_once. Qed.
 Print Assumptions C06_once.
 
 (* Build() never returns "stuck [this is a bug]": from no reachable state is that exit accepted. *)
-Theorem C06_never_stuck : forall g cfg rank, wf_graph g rank -> 0 < c_k cfg -> 0 < c_j cfg ->
-  forall s code, reachable g cfg s -> step g cfg s (EvExit code MStuck) = None.
+Theorem C06_never_stuck : forall g cfg loads rank, wf_graph g rank -> 0 < c_k cfg -> 0 < c_j cfg ->
+  forall s code, reachable g cfg loads s -> step g cfg loads s (EvExit code MStuck) = None.
 Proof. exact never_stuck. Qed.
 Print Assumptions C06_never_stuck.
 
 (* WaitForCommand is only called when the start loop could not start anything: budget 0, capacity
    0, nothing ready, or no token.  (What the code guarantees; "no ready edge" includes edges parked
    in a full pool's delayed set.) *)
-Theorem C06_progress : forall g cfg, 0 < c_k cfg -> 0 < c_j cfg ->
-  forall s s', step g cfg s EvWait = Some s' ->
+Theorem C06_progress : forall g cfg loads, 0 < c_k cfg -> 0 < c_j cfg ->
+  forall s s', step g cfg loads s EvWait = Some s' ->
   can_start cfg s = false /\
   (s_fa s = 0 \/ c_j cfg <= length (s_running s) \/ p_ready (s_plan s) = [] \/
    token_ok cfg (s_plan s) = false).
@@ -72,15 +73,15 @@ Print Assumptions C06_progress.
 
 (* The recursion EdgeFinished -> NodeFinished -> EdgeMaybeReady -> EdgeFinished terminates within
    #edges + 1 levels: the model's fuel is never exhausted in a reachable state. *)
-Theorem C06_fuel_sufficient : forall g cfg rank, wf_graph g rank -> 0 < c_k cfg -> 0 < c_j cfg ->
-  forall s ev, reachable g cfg s -> step_res g cfg s ev <> OutOfFuel.
+Theorem C06_fuel_sufficient : forall g cfg loads rank, wf_graph g rank -> 0 < c_k cfg -> 0 < c_j cfg ->
+  forall s ev, reachable g cfg loads s -> step_res g cfg loads s ev <> OutOfFuel.
 Proof. exact step_res_fuel_sufficient. Qed.
 Print Assumptions C06_fuel_sufficient.
 
 (* ---- non-vacuity on the example: commands 0 and 1 share a pool of depth 1 ---- *)
 Example C06_reachable_nonvacuous :
   wf_graph ex_graph ex_rank /\ wf_snap ex_graph ex_snap /\ 0 < c_k ex_cfg_js /\ 0 < c_j ex_cfg_js /\
-  (exists s, run ex_graph ex_cfg_js ex_prio ex_snap ex_trace_ok = Some s) /\
+  (exists s, run ex_graph ex_cfg_js no_loads ex_prio ex_snap ex_trace_ok = Some s) /\
   depth ex_graph 1 = 1 /\ c_jobserver ex_cfg_js = Some 1.
 Proof.
   split; [exact ex_wf_graph|]. split; [exact ex_wf_snap|]. split; [cbn; lia|]. split; [cbn; lia|].
@@ -92,28 +93,65 @@ Qed.
 Example C06_pool_delays :
   let s := init_state ex_graph ex_cfg ex_prio ex_snap in
   p_ready (s_plan s) = [0] /\ p_delayed (s_plan s) = [1] /\ p_use (s_plan s) 1 = 1 /\
-  is_some (run ex_graph ex_cfg ex_prio ex_snap [EvStart 0 ex_prio; EvStart 1 ex_prio]) = false.
+  is_some (run ex_graph ex_cfg no_loads ex_prio ex_snap [EvStart 0 ex_prio; EvStart 1 ex_prio]) = false.
 Proof. vm_compute. repeat split; reflexivity. Qed.
 
 Example C06_once_nonvacuous :
-  is_some (run ex_graph ex_cfg ex_prio ex_snap ([] ++ EvStart 0 ex_prio :: skipn 1 ex_trace_ok)) = true /\
-  is_some (run ex_graph ex_cfg ex_prio ex_snap
+  is_some (run ex_graph ex_cfg no_loads ex_prio ex_snap ([] ++ EvStart 0 ex_prio :: skipn 1 ex_trace_ok)) = true /\
+  is_some (run ex_graph ex_cfg no_loads ex_prio ex_snap
              ([EvStart 0 ex_prio; EvWait; EvFinish 0 0 ex_prio] ++ [EvStart 0 ex_prio])) = false.
 Proof. split; vm_compute; reflexivity. Qed.
 
 (* an accepted Wait and an accepted (non-stuck) error exit *)
 Example C06_progress_nonvacuous :
-  exists s s', reachable ex_graph ex_cfg s /\ step ex_graph ex_cfg s EvWait = Some s'.
+  exists s s', reachable ex_graph ex_cfg no_loads s /\ step ex_graph ex_cfg no_loads s EvWait = Some s'.
 Proof.
-  destruct (run_snoc_split ex_graph ex_cfg ex_prio ex_snap [EvStart 0 ex_prio] EvWait) as [s [s' [H1 H2]]];
+  destruct (run_snoc_split ex_graph ex_cfg no_loads ex_prio ex_snap [EvStart 0 ex_prio] EvWait) as [s [s' [H1 H2]]];
     [vm_compute; reflexivity|].
-  exists s, s'. split; [apply (run_reachable _ _ _ _ _ _ ex_wf_snap H1)|exact H2].
+  exists s, s'. split; [apply (run_reachable _ _ _ _ _ _ _ ex_wf_snap H1)|exact H2].
 Qed.
 
 Example C06_wait_with_startable_rejected :
   (* two independent commands, -j2: waiting after the first start is refused, the second must be started *)
-  let g2 := mkGraph [mkEdge [] [] 0 false; mkEdge [] [] 0 false] [] in
+  let g2 := mkGraph [mkEdge [] [] 0 false None []; mkEdge [] [] 0 false None []] [] in
   let sn2 := mkSnap (fun e => if e <? 2 then Some WToStart else None) (fun _ => false) 2 2 in
-  is_some (run g2 ex_cfg [] sn2 [EvStart 0 []; EvWait]) = false /\
-  is_some (run g2 ex_cfg [] sn2 [EvStart 0 []; EvStart 1 []; EvWait]) = true.
+  is_some (run g2 ex_cfg no_loads [] sn2 [EvStart 0 []; EvWait]) = false /\
+  is_some (run g2 ex_cfg no_loads [] sn2 [EvStart 0 []; EvStart 1 []; EvWait]) = true.
+Proof. split; vm_compute; reflexivity. Qed.
+
+(* ---- the OLD Plan::ScheduleInitialEdges (before "fix: mark initially pool-delayed edges as scheduled"):
+   an initially ready edge of a depth-limited pool kept want_ = kWantToStart while it sat in ready_;
+   once started, a dyndep load that walks over it (AddSubTarget: want != kWantToFinish) made
+   EdgeMaybeReady schedule it again: the SAME command started twice.  [run_old] = the same model with
+   [schedule_initial_plan_old]; the witness is [dd_graph] of PlanDefs.v. ---- *)
+Definition C06_once_old : Prop :=
+  forall g cfg loads rank, wf_graph g rank -> 0 < c_k cfg -> 0 < c_j cfg ->
+  forall prio sn evs1 e pr evs2 s, wf_snap g sn ->
+  run_old g cfg loads prio sn (evs1 ++ EvStart e pr :: evs2) = Some s ->
+  forall pr', ~ In (EvStart e pr') evs2.
+
+Lemma dd_wf_graph6 : wf_graph dd_graph (fun e => e).
+Proof. apply wf_graph_b_sound. vm_compute. reflexivity. Qed.
+Lemma dd_wf_snap6 : wf_snap dd_graph dd_snap.
+Proof.
+  apply wf_snap_b_sound; [|vm_compute; reflexivity].
+  intros e He. change (n_edges dd_graph) with 4 in He. unfold dd_snap. cbn [sn_want sn_oready].
+  destruct (Nat.ltb_spec e 4); [lia|]. split; reflexivity.
+Qed.
+
+Theorem C06_once_old_refuted : ~ C06_once_old.
+Proof.
+  intros H.
+  destruct (run_old dd_graph dd_cfg dd_loads [] dd_snap dd_trace_twice) as [s|] eqn:E; [|vm_compute in E; discriminate].
+  apply (H dd_graph dd_cfg dd_loads (fun e => e) dd_wf_graph6 ltac:(cbn; lia) ltac:(cbn; lia)
+           [] dd_snap [] 1 [] [EvStart 0 []; EvWait; EvFinish 0 0 []; EvStart 1 []] s dd_wf_snap6 E []).
+  right. right. right. left. reflexivity.
+Qed.
+Print Assumptions C06_once_old_refuted.
+
+(* the fixed model rejects the second start of that very trace, and [C06_once] above covers traces
+   with dyndep loads: its premises hold for this graph, snapshot and payload *)
+Example C06_once_dyndep_nonvacuous :
+  is_some (run dd_graph dd_cfg dd_loads [] dd_snap dd_trace) = true /\
+  is_some (run dd_graph dd_cfg dd_loads [] dd_snap dd_trace_twice) = false.
 Proof. split; vm_compute; reflexivity. Qed.
